@@ -1,5 +1,6 @@
 import NdnProofs.Lemmas.PitTies
 import NdnModel.Gate
+import NdnProofs.Lemmas.GateTimedTable
 /-!
 # C05 — nothing that requires validation reaches the application unvalidated
 
@@ -373,5 +374,437 @@ theorem digest_check_exact (computed value : Bytes) : paramsChecker computed val
 
 example : paramsChecker [1, 2, 3] [1, 2] = false := by decide
 example : Src.BytesCmp.holds .zipAll [1, 2, 3] [1, 2] = true := by decide
+
+/-! ### incoming Interests, timed: validation takes time and the routing table may change meanwhile
+
+Theorems about `Ndn.GateTimed.run` (NdnModel/GateTimed.lean: a small-step machine over the events attach / detach /
+arrive / start / done / deadline, node objects on a heap, Interests in flight holding the node object `_on_interest`
+kept), for every event history and both front-ends.  Specification vocabulary: `obsAfter` (what is observed about
+the Interest that arrives after `pre`), `toksIn` / `started` / `answer` (its own events: its task started; the first
+answer of its validator after that), `captured` (what the table held for its name at the instant of arrival),
+`registered` / `C04.attached` / `C04.IsLongestAttached` (the registrations a history denotes). -/
+
+open Ndn.GateTimed (Obs Tok obsOf arrivals captured registered ops tokOf started answer life TNode ProperT Iid Vid Phase
+  arrivalF startF doneF conclude tshape)
+
+/-- calling `node.callback` (a `None` callback would be a TypeError inside the task; `captured_callback`: unreachable) -/
+def deliverRef (i : Iid) (nd : TNode) : List Obs :=
+  match nd.callback with
+  | some h => [.handle i h]
+  | none => [.died i .typeError]
+
+/-- what the validator's answer leads to: an exception ends the task, an accepting verdict calls the handler -/
+def finRef (i : Iid) (nd : TNode) : Verdict → List Obs
+  | .raiseTimeout => [.died i .timeoutError]
+  | .raiseOther => [.died i .scripted]
+  | v => if letsRef v then deliverRef i nd else []
+
+/-- evaluation of the generated tables (`Gen.C05`, `Gen.C05T`): nothing is caught around the validator call -/
+theorem doneF_eq_ref (fe : FrontEnd) (i : Iid) (nd : TNode) (v : Verdict) :
+    doneF fe i nd v = (.finished, finRef i nd v) := by
+  obtain ⟨cb, val⟩ := nd
+  cases fe <;> cases v <;> cases cb <;>
+    simp [doneF, conclude, finRef, deliverRef, lets_eq_ref, letsRef, tshape, Gen.C05T.v1, Gen.C05T.v2, Pit.validOf,
+      GateTimed.excOf]
+
+/-- the validator `submit_interest` consults: the node's, else (legacy only) the application-wide one -/
+def inForce (fe : FrontEnd) (av : Vid) (nd : TNode) : Option Vid :=
+  match nd.validator, fe with
+  | some vid, _ => some vid
+  | none, .v1 => some av
+  | none, .v2 => none
+
+/-- the life of one Interest with today's values of the generated tables written out: `st` = its task has started,
+    `ans` = what its validator answered -/
+def lifeRef (fe : FrontEnd) (av : Vid) (i : Iid) (pkt : IntPkt) (nd : TNode) (st : Bool) (ans : Option Verdict) :
+    Phase × List Obs :=
+  let needs := pkt.hasParams || pkt.hasSig
+  let pre := if needs then [Obs.digest i] else []
+  if needs && !pkt.digestOk then (.finished, pre)
+  else if !st then (.queued, pre)
+  else
+    let validates := match fe with | .v2 => needs | .v1 => pkt.hasSig
+    if validates then
+      match inForce fe av nd with
+      | none => (.finished, pre)
+      | some vid =>
+        match ans with
+        | none => (.validating vid, pre ++ [.validate i vid])
+        | some v => (.finished, pre ++ [.validate i vid] ++ finRef i nd v)
+    else (.finished, pre ++ deliverRef i nd)
+
+/-- evaluation of the generated tables: closed by computation, so a source edit that changes when the digest check /
+    the validator are required, what stands in for a missing validator, the delivering verdicts or the `except` clauses
+    around the validator call stops this - and every `timed_*` theorem - from checking -/
+theorem life_eq_ref (fe : FrontEnd) (av : Vid) (i : Iid) (pkt : IntPkt) (nd : TNode) (toks : List Tok) :
+    life fe av i pkt (some nd) toks = lifeRef fe av i pkt nd (started toks) (answer toks) := by
+  rw [GateTimed.life_eq]
+  simp only [doneF_eq_ref]
+  obtain ⟨a, b, c⟩ := pkt
+  obtain ⟨cb, val⟩ := nd
+  cases fe <;> cases a <;> cases b <;> cases c <;> cases val <;> cases cb <;> cases started toks <;> cases answer toks <;>
+    simp [lifeRef, inForce, arrivalF, startF, conclude, deliverRef, lets_eq_ref, letsRef, Gate.shape, Gen.C05.v1, Gen.C05.v2,
+      Src.SigReq.holds, Verdict.ofVR]
+
+/-- `_on_interest` only keeps a node that carries a callback -/
+theorem captured_callback (s : GateTimed.St) (n : GateTimed.Name) (nd : TNode) (h : captured s n = some nd) :
+    nd.callback.isSome := by
+  unfold captured at h
+  cases hc : GateTimed.capture s n with
+  | none => rw [hc] at h; cases h
+  | some an =>
+    rw [hc] at h
+    simp only [Option.map_some, Option.some.injEq] at h
+    have := (GateTimed.capture_some (a := an.1) (nd := an.2) (by rw [hc])).2
+    rw [h] at this; exact this
+
+/-- the observations about the Interest that arrives after `pre`, once `post` has happened -/
+def obsAfter (fe : FrontEnd) (av : Vid) (pre : List GateTimed.Ev) (n : GateTimed.Name) (pkt : IntPkt)
+    (post : List GateTimed.Ev) : List Obs :=
+  obsOf (arrivals pre) (GateTimed.run fe av (pre ++ .arrive n pkt :: post)).log
+
+/-- its own events in `post` -/
+def toksIn (pre post : List GateTimed.Ev) : List Tok := post.filterMap (tokOf (arrivals pre))
+
+/-- **timed_flight (one Interest, every history).** For every history `pre ++ [arrive n pkt] ++ post` - attach / detach
+    at any instant before, during and after the validation, any number of other Interests in flight, deadlines - what is
+    observed about the arriving Interest (digest check, validator calls, handler calls, death of its task: `obsAfter`) is
+    `life` of (1) the fields of the node object found for its name AT THE INSTANT OF ARRIVAL (`captured`) and (2) its own
+    `start` / `done` events in `post`.  Nothing else of the history matters: the validator is read from, and the handler
+    called on, the node object kept at arrival, and a node object that carries a callback is never written again
+    (`GateTimed.heap_frozen`). -/
+theorem timed_flight (fe : FrontEnd) (av : Vid) (pre post : List GateTimed.Ev) (n : GateTimed.Name) (pkt : IntPkt) :
+    obsAfter fe av pre n pkt post =
+      (life fe av (arrivals pre) pkt (captured (GateTimed.run fe av pre) n) (toksIn pre post)).2 :=
+  GateTimed.run_flight_obs fe av pre post n pkt
+
+/-- `timed_flight` with the tables evaluated and the canonical form: only whether the task started and the first answer
+    after that count -/
+theorem timed_flight_ref (fe : FrontEnd) (av : Vid) (pre post : List GateTimed.Ev) (n : GateTimed.Name) (pkt : IntPkt) :
+    obsAfter fe av pre n pkt post =
+      match captured (GateTimed.run fe av pre) n with
+      | none => []
+      | some nd => (lifeRef fe av (arrivals pre) pkt nd (started (toksIn pre post)) (answer (toksIn pre post))).2 := by
+  rw [timed_flight]
+  cases captured (GateTimed.run fe av pre) n with
+  | none => rfl
+  | some nd => simp only [life_eq_ref]
+
+/-- **table changes and other Interests are irrelevant.** Two continuations that agree on the Interest's own `start` /
+    `done` events - whatever attach / detach calls, other arrivals, other Interests' validators (accepting, refusing or
+    raising) and deadlines they hold - lead to the same observations about it.  In particular a raising validator of
+    ANOTHER Interest changes nothing here: the exception stays in that Interest's own `submit_interest` task. -/
+theorem timed_only_own_events (fe : FrontEnd) (av : Vid) (pre post post' : List GateTimed.Ev) (n : GateTimed.Name)
+    (pkt : IntPkt) (h : toksIn pre post' = toksIn pre post) :
+    obsAfter fe av pre n pkt post' = obsAfter fe av pre n pkt post := by
+  rw [timed_flight, timed_flight, h]
+
+/-- **(a) current front-end: delivered only through the validator registered with that handler.**  An Interest that
+    carries ApplicationParameters (also empty) or a signature is handed to a handler `h` - in any history - only if the
+    node found at arrival held `h` TOGETHER WITH a validator `vid` (never a node without validator), its digest was
+    right, its task started, the validator answered (the first `done` after the `start`: an answer for THIS Interest)
+    with an accepting verdict, and exactly this was observed, in this order: digest check, `vid` called, `h` called.
+    Since this holds for every history it holds for every prefix of one: no delivery before the accepting answer
+    (`timed_not_before_verdict`). -/
+theorem timed_validated_before_handler_v2 (av : Vid) (pre post : List GateTimed.Ev) (n : GateTimed.Name) (pkt : IntPkt)
+    (h : GateTimed.Hid) (hreq : pkt.hasParams = true ∨ pkt.hasSig = true)
+    (hh : Obs.handle (arrivals pre) h ∈ obsAfter .v2 av pre n pkt post) :
+    pkt.digestOk = true ∧ ∃ vid v, captured (GateTimed.run .v2 av pre) n = some ⟨some h, some vid⟩ ∧
+      started (toksIn pre post) = true ∧ answer (toksIn pre post) = some v ∧ Accepting v ∧
+      obsAfter .v2 av pre n pkt post =
+        [.digest (arrivals pre), .validate (arrivals pre) vid, .handle (arrivals pre) h] := by
+  have hreq' : (pkt.hasParams || pkt.hasSig) = true := by rcases hreq with h | h <;> simp [h]
+  rw [timed_flight_ref] at hh ⊢
+  cases hc : captured (GateTimed.run .v2 av pre) n with
+  | none => rw [hc] at hh; cases hh
+  | some nd =>
+    rw [hc] at hh
+    obtain ⟨cb, val⟩ := nd
+    simp only at hh ⊢
+    cases hd : pkt.digestOk <;> cases hs : started (toksIn pre post) <;> cases val <;>
+      cases ha : answer (toksIn pre post) <;>
+      simp [lifeRef, inForce, hreq', hd, hs, ha] at hh ⊢
+    rename_i vid v
+    cases v <;> cases cb <;> simp [finRef, deliverRef, letsRef, Accepting] at hh ⊢ <;> exact ⟨vid, ⟨hh.symm, rfl⟩, rfl, hh.symm⟩
+
+/-- **(a) legacy front-end**: the same for SIGNED Interests; the validator consulted is the one registered with the
+    handler, or the application-wide `int_validator` (`av`) when the handler was registered without one. -/
+theorem timed_validated_before_handler_v1 (av : Vid) (pre post : List GateTimed.Ev) (n : GateTimed.Name) (pkt : IntPkt)
+    (h : GateTimed.Hid) (hsig : pkt.hasSig = true)
+    (hh : Obs.handle (arrivals pre) h ∈ obsAfter .v1 av pre n pkt post) :
+    pkt.digestOk = true ∧ ∃ val v, captured (GateTimed.run .v1 av pre) n = some ⟨some h, val⟩ ∧
+      started (toksIn pre post) = true ∧ answer (toksIn pre post) = some v ∧ Accepting v ∧
+      obsAfter .v1 av pre n pkt post =
+        [.digest (arrivals pre), .validate (arrivals pre) (val.getD av), .handle (arrivals pre) h] := by
+  rw [timed_flight_ref] at hh ⊢
+  cases hc : captured (GateTimed.run .v1 av pre) n with
+  | none => rw [hc] at hh; cases hh
+  | some nd =>
+    rw [hc] at hh
+    obtain ⟨cb, val⟩ := nd
+    simp only at hh ⊢
+    cases hd : pkt.digestOk <;> cases hs : started (toksIn pre post) <;>
+      cases ha : answer (toksIn pre post) <;>
+      simp [lifeRef, hsig, hd, hs, ha] at hh ⊢
+    · cases val <;> simp [inForce] at hh
+    · rename_i v
+      cases val <;> cases v <;> cases cb <;> simp [inForce, finRef, deliverRef, letsRef, Accepting] at hh ⊢ <;>
+        exact ⟨_, ⟨hh.symm, rfl⟩, rfl, hh.symm⟩
+
+/-- validation is required: ApplicationParameters (also empty) or a signature in the current front-end, a signature in
+    the legacy one -/
+def Validates (fe : FrontEnd) (pkt : IntPkt) : Prop :=
+  match fe with
+  | .v2 => pkt.hasParams = true ∨ pkt.hasSig = true
+  | .v1 => pkt.hasSig = true
+
+/-- **(b) digest gate.** ApplicationParameters or a signature and a wrong / absent / misplaced parameters digest
+    (`digestOk = false`): whatever the history, nothing but the digest check is ever observed about the Interest - no
+    validator call, no handler call (both front-ends). -/
+theorem timed_digest_gate (fe : FrontEnd) (av : Vid) (pre post : List GateTimed.Ev) (n : GateTimed.Name) (pkt : IntPkt)
+    (hreq : pkt.hasParams = true ∨ pkt.hasSig = true) (hbad : pkt.digestOk = false) :
+    ∀ o ∈ obsAfter fe av pre n pkt post, o = .digest (arrivals pre) := by
+  have hreq' : (pkt.hasParams || pkt.hasSig) = true := by rcases hreq with h | h <;> simp [h]
+  intro o ho
+  rw [timed_flight_ref] at ho
+  cases hc : captured (GateTimed.run fe av pre) n with
+  | none => rw [hc] at ho; cases ho
+  | some nd =>
+    rw [hc] at ho
+    simpa [lifeRef, hreq', hbad] using ho
+
+/-- **(c) plain Interests.** Without ApplicationParameters and signature: no digest check, no validator call; the
+    handler found at arrival is called as soon as the task starts (both front-ends). -/
+theorem timed_plain (fe : FrontEnd) (av : Vid) (pre post : List GateTimed.Ev) (n : GateTimed.Name) (pkt : IntPkt)
+    (h1 : pkt.hasParams = false) (h2 : pkt.hasSig = false) :
+    (captured (GateTimed.run fe av pre) n = none ∧ obsAfter fe av pre n pkt post = []) ∨
+    ∃ h val, captured (GateTimed.run fe av pre) n = some ⟨some h, val⟩ ∧
+      obsAfter fe av pre n pkt post = if started (toksIn pre post) then [.handle (arrivals pre) h] else [] := by
+  rw [timed_flight_ref]
+  cases hc : captured (GateTimed.run fe av pre) n with
+  | none => exact .inl ⟨rfl, rfl⟩
+  | some nd =>
+    have hcb := captured_callback _ _ _ hc
+    obtain ⟨cb, val⟩ := nd
+    cases cb with
+    | none => cases hcb
+    | some h =>
+      refine .inr ⟨h, val, rfl, ?_⟩
+      cases fe <;> cases started (toksIn pre post) <;> simp [lifeRef, h1, h2, deliverRef]
+
+def isHandle : Obs → Bool
+  | .handle _ _ => true
+  | _ => false
+
+theorem filter_deliverRef (i : Iid) (nd : TNode) : ((deliverRef i nd).filter isHandle).length ≤ 1 := by
+  unfold deliverRef; split <;> simp [List.filter, isHandle]
+
+theorem filter_finRef (i : Iid) (nd : TNode) (v : Verdict) : ((finRef i nd v).filter isHandle).length ≤ 1 := by
+  cases v <;> simp [finRef, letsRef, List.filter, isHandle] <;> exact filter_deliverRef i nd
+
+/-- **(d) at most one delivery per Interest**, in every history, both front-ends, every packet - however many `start` /
+    `done` events the history holds for it. -/
+theorem timed_at_most_once (fe : FrontEnd) (av : Vid) (pre post : List GateTimed.Ev) (n : GateTimed.Name) (pkt : IntPkt) :
+    ((obsAfter fe av pre n pkt post).filter isHandle).length ≤ 1 := by
+  rw [timed_flight_ref]
+  cases captured (GateTimed.run fe av pre) n with
+  | none => simp
+  | some nd =>
+    have h1 := filter_deliverRef (arrivals pre) nd
+    have h2 := fun v => filter_finRef (arrivals pre) nd v
+    simp only [lifeRef]
+    generalize inForce fe av nd = f
+    cases fe <;> cases pkt.hasParams <;> cases pkt.hasSig <;> cases pkt.digestOk <;> cases started (toksIn pre post) <;>
+      cases f <;> cases answer (toksIn pre post) <;> simp [List.filter, isHandle] <;>
+      first | exact h1 | exact h2 _
+
+/-- **(e) a non-accepting answer keeps the Interest from every handler.**  `FAIL`, `TIMEOUT`, `SILENCE`, a value that is
+    no `ValidResult` member, a false value (legacy), or an exception: if that is what the validator answered for this
+    Interest, no handler is ever called with it - whatever happens to the table afterwards (both front-ends). -/
+theorem timed_rejected (fe : FrontEnd) (av : Vid) (pre post : List GateTimed.Ev) (n : GateTimed.Name) (pkt : IntPkt)
+    (v : Verdict) (hval : Validates fe pkt) (ha : answer (toksIn pre post) = some v) (hv : ¬ Accepting v) :
+    ∀ h, Obs.handle (arrivals pre) h ∉ obsAfter fe av pre n pkt post := by
+  intro h hh
+  cases fe with
+  | v2 =>
+    obtain ⟨_, vid, v', _, _, ha', hacc, _⟩ := timed_validated_before_handler_v2 av pre post n pkt h hval hh
+    rw [ha] at ha'; cases ha'; exact hv hacc
+  | v1 =>
+    obtain ⟨_, val, v', _, _, ha', hacc, _⟩ := timed_validated_before_handler_v1 av pre post n pkt h hval hh
+    rw [ha] at ha'; cases ha'; exact hv hacc
+
+/-- as long as the validator has not answered, no handler has the Interest (both front-ends) -/
+theorem timed_not_before_verdict (fe : FrontEnd) (av : Vid) (pre post : List GateTimed.Ev) (n : GateTimed.Name)
+    (pkt : IntPkt) (hval : Validates fe pkt) (hn : answer (toksIn pre post) = none) :
+    ∀ h, Obs.handle (arrivals pre) h ∉ obsAfter fe av pre n pkt post := by
+  intro h hh
+  cases fe with
+  | v2 =>
+    obtain ⟨_, vid, v', _, _, ha', _⟩ := timed_validated_before_handler_v2 av pre post n pkt h hval hh
+    rw [hn] at ha'; cases ha'
+  | v1 =>
+    obtain ⟨_, val, v', _, _, ha', _⟩ := timed_validated_before_handler_v1 av pre post n pkt h hval hh
+    rw [hn] at ha'; cases ha'
+
+/-- **(e) a validator that raises** (both front-ends - `TimeoutError` and every other exception alike: nothing in
+    `submit_interest` catches anything, `gen_timed`): the `submit_interest` task of this Interest ends with that exception
+    right after the validator call, nothing is delivered.  The task is nobody's child (`aio.create_task`, never awaited):
+    the exception reaches the event loop's exception handler and nothing else - not `_on_interest` / the reception path,
+    which returned long ago, and not the other Interests in flight (`timed_only_own_events`). -/
+theorem timed_validator_raises (fe : FrontEnd) (av : Vid) (pre post : List GateTimed.Ev) (n : GateTimed.Name)
+    (pkt : IntPkt) (h : GateTimed.Hid) (val : Option Vid) (vid : Vid) (v : Verdict)
+    (hc : captured (GateTimed.run fe av pre) n = some ⟨some h, val⟩) (hval : Validates fe pkt)
+    (hd : pkt.digestOk = true) (hin : inForce fe av ⟨some h, val⟩ = some vid)
+    (hs : started (toksIn pre post) = true) (ha : answer (toksIn pre post) = some v)
+    (hr : v = .raiseTimeout ∨ v = .raiseOther) :
+    obsAfter fe av pre n pkt post =
+      [.digest (arrivals pre), .validate (arrivals pre) vid, .died (arrivals pre) (GateTimed.excOf v)] := by
+  rw [timed_flight_ref, hc]
+  cases fe with
+  | v2 =>
+    have hreq' : (pkt.hasParams || pkt.hasSig) = true := by rcases hval with h | h <;> simp [h]
+    rcases hr with rfl | rfl <;> simp [lifeRef, hreq', hd, hs, ha, hin, finRef, GateTimed.excOf]
+  | v1 =>
+    have hsig : pkt.hasSig = true := hval
+    rcases hr with rfl | rfl <;> simp [lifeRef, hsig, hd, hs, ha, hin, finRef, GateTimed.excOf]
+
+/-- the steps of the atomic model -/
+def actOf : Obs → Option Act
+  | .digest _ => some .digestCheck
+  | .validate _ _ => some .validate
+  | .handle _ _ => some .handle
+  | .died _ _ => none
+
+/-- the route of the atomic model: what was captured, with the validator's answer as its script -/
+def gateRoute (c : Option TNode) (v : Verdict) : Route :=
+  match c with
+  | none => .none
+  | some nd =>
+    match nd.callback with
+    | none => .noCallback
+    | some _ => .handler (nd.validator.map fun _ => v)
+
+/-- **(f) refinement.** Once the Interest's task has started and its validator has answered `v`, the steps observed are
+    those of the atomic model `Gate.onInterest` on the table AS IT WAS AT ARRIVAL with `v` as the validator's script -
+    also when attach / detach calls fall between arrival and answer; so the theorems about `Gate.onInterest` above
+    (`interest_digest_gate`, `interest_validated_before_handler_v2/_v1`, `interest_rejected_by_verdict`,
+    `plain_interest_no_validator`) describe every timed run. -/
+theorem timed_refines_atomic (fe : FrontEnd) (av : Vid) (pre post : List GateTimed.Ev) (n : GateTimed.Name)
+    (pkt : IntPkt) (v : Verdict) (hs : started (toksIn pre post) = true) (ha : answer (toksIn pre post) = some v) :
+    (obsAfter fe av pre n pkt post).filterMap actOf =
+      onInterest fe v pkt (gateRoute (captured (GateTimed.run fe av pre) n) v) := by
+  rw [timed_flight_ref, onInterest_eq_ref]
+  cases hc : captured (GateTimed.run fe av pre) n with
+  | none => rfl
+  | some nd =>
+    have hcb := captured_callback _ _ _ hc
+    obtain ⟨cb, val⟩ := nd
+    cases cb with
+    | none => cases hcb
+    | some h =>
+      obtain ⟨a, b, c⟩ := pkt
+      cases fe <;> cases a <;> cases b <;> cases c <;> cases val <;> cases v <;>
+        simp [lifeRef, hs, ha, inForce, gateRoute, onInterestRef, finRef, deliverRef, letsRef, actOf]
+
+/-- the special case the atomic model was written for: the task starts and the validator answers with nothing in between -/
+theorem timed_atomic_when_undisturbed (fe : FrontEnd) (av : Vid) (pre rest : List GateTimed.Ev) (n : GateTimed.Name)
+    (pkt : IntPkt) (v : Verdict) :
+    (obsAfter fe av pre n pkt (.start (arrivals pre) :: .done (arrivals pre) v :: rest)).filterMap actOf =
+      onInterest fe v pkt (gateRoute (captured (GateTimed.run fe av pre) n) v) := by
+  apply timed_refines_atomic <;> simp [toksIn, tokOf, started, answer, GateTimed.afterStart, GateTimed.firstDone]
+
+/-! ### the captured node, in the vocabulary of C04 -/
+
+/-- **the node kept at arrival = the registration in force at the longest attached prefix.**  After any history in
+    which every attach carries a handler: `_on_interest` keeps handler `h` and validator `val` iff `(h, val)` is the
+    registration in force (`registered`: registering on a free prefix binds handler and validator together, a refused
+    duplicate changes nothing, removal unbinds) at the longest attached prefix of the name - `IsLongestAttached` over
+    `attached`, the specification of C04, whose theorems (`dispatch_longest`, `attach_dup_refused`,
+    `detach_falls_back`, ...) speak about the same table (`GateTimed.cbOf_run`). -/
+theorem arrival_registration (fe : FrontEnd) (av : Vid) (pre : List GateTimed.Ev) (hp : ProperT pre) (n : GateTimed.Name)
+    (h : GateTimed.Hid) (val : Option Vid) :
+    captured (GateTimed.run fe av pre) n = some ⟨some h, val⟩ ↔
+      ∃ p, C04.IsLongestAttached (C04.attached (ops pre)) n p ∧ registered pre p = some (h, val) :=
+  GateTimed.captured_iff fe av pre hp n h val
+
+/-- nothing is kept iff no attached prefix matches -/
+theorem arrival_no_route (fe : FrontEnd) (av : Vid) (pre : List GateTimed.Ev) (hp : ProperT pre) (n : GateTimed.Name) :
+    captured (GateTimed.run fe av pre) n = none ↔ ∀ q, q <+: n → C04.attached (ops pre) q = none :=
+  GateTimed.captured_none_iff fe av pre hp n
+
+/-- **(a), in specification terms (current front-end).**  In every history: an Interest that requires validation
+    reaches a handler `h` only if, at the instant it arrived, `h` was registered at the longest attached prefix of its
+    name together with a validator `vid`, and `vid` - called with this Interest after the digest check - returned an
+    accepting verdict before `h` was called.  What happened to that registration in the meantime (removed, replaced by
+    another handler with another validator, a shorter prefix without validator taking over) has no influence: the new
+    registrations get the Interests that arrive after them (C04), this one stays with the handler / validator pair it
+    found. -/
+theorem timed_handler_only_with_its_validator (av : Vid) (pre post : List GateTimed.Ev) (hp : ProperT pre)
+    (n : GateTimed.Name) (pkt : IntPkt) (h : GateTimed.Hid) (hreq : pkt.hasParams = true ∨ pkt.hasSig = true)
+    (hh : Obs.handle (arrivals pre) h ∈ obsAfter .v2 av pre n pkt post) :
+    ∃ p vid v, C04.IsLongestAttached (C04.attached (ops pre)) n p ∧ registered pre p = some (h, some vid) ∧
+      answer (toksIn pre post) = some v ∧ Accepting v ∧
+      obsAfter .v2 av pre n pkt post =
+        [.digest (arrivals pre), .validate (arrivals pre) vid, .handle (arrivals pre) h] := by
+  obtain ⟨_, vid, v, hc, _, ha, hacc, hl⟩ := timed_validated_before_handler_v2 av pre post n pkt h hreq hh
+  obtain ⟨p, h1, h2⟩ := (arrival_registration .v2 av pre hp n h (some vid)).mp hc
+  exact ⟨p, vid, v, h1, h2, ha, hacc, hl⟩
+
+/-- the same for signed Interests in the legacy front-end (`val = none`: the application-wide validator decided) -/
+theorem timed_handler_only_with_its_validator_v1 (av : Vid) (pre post : List GateTimed.Ev) (hp : ProperT pre)
+    (n : GateTimed.Name) (pkt : IntPkt) (h : GateTimed.Hid) (hsig : pkt.hasSig = true)
+    (hh : Obs.handle (arrivals pre) h ∈ obsAfter .v1 av pre n pkt post) :
+    ∃ p val v, C04.IsLongestAttached (C04.attached (ops pre)) n p ∧ registered pre p = some (h, val) ∧
+      answer (toksIn pre post) = some v ∧ Accepting v ∧
+      obsAfter .v1 av pre n pkt post =
+        [.digest (arrivals pre), .validate (arrivals pre) (val.getD av), .handle (arrivals pre) h] := by
+  obtain ⟨_, val, v, hc, _, ha, hacc, hl⟩ := timed_validated_before_handler_v1 av pre post n pkt h hsig hh
+  obtain ⟨p, h1, h2⟩ := (arrival_registration .v1 av pre hp n h val).mp hc
+  exact ⟨p, val, v, h1, h2, ha, hacc, hl⟩
+
+/-- the deadline of an Interest plays no part in the gate (it only bounds `reply`, C04) -/
+theorem timed_deadline_irrelevant (fe : FrontEnd) (av : Vid) (s : GateTimed.St) (i : Iid) :
+    GateTimed.step fe av s (.deadline i) = s := rfl
+
+/-- **gen_timed.** What the timed model mirrors of the source text of `_on_interest` (lean/NdnGen/C05T.lean, regenerated
+    by every check run): ONE `longest_prefix` call and ONE binding of `node` in the whole function, the nested
+    `submit_interest` included (a second lookup after the validator - the handler looked up again - changes both
+    counts); `submit_interest` is spawned as a task; it reads `node.validator` and calls `node.callback`; no `except`
+    clause around the validator call; the only `await` before the spawn is the digest check; attach writes the
+    validator always (current) / when one is given (legacy). -/
+theorem gen_timed :
+    Gen.C05T.v2.lookups = 1 ∧ Gen.C05T.v1.lookups = 1 ∧
+    Gen.C05T.v2.nodeBinds = ["node: PrefixTreeNode = trie_step.value"] ∧ Gen.C05T.v1.nodeBinds = ["node = trie_step.value"] ∧
+    Gen.C05T.v2.spawn = "aio.create_task(submit_interest())" ∧ Gen.C05T.v1.spawn = Gen.C05T.v2.spawn ∧
+    Gen.C05T.v2.validatorRead = "node.validator" ∧ Gen.C05T.v1.validatorRead = "node.validator" ∧
+    Gen.C05T.v2.callbackCall = "node.callback" ∧ Gen.C05T.v1.callbackCall = "node.callback" ∧
+    Gen.C05T.v2.validatorCaught = [] ∧ Gen.C05T.v1.validatorCaught = [] ∧
+    Gen.C05T.v2.awaitsBefore = ["await sec.params_sha256_checker(name, sig)"] ∧
+    Gen.C05T.v1.awaitsBefore = ["await params_sha256_checker(name, sig)"] ∧
+    Gen.C05T.v2.valWrite = .always ∧ Gen.C05T.v1.valWrite = .ifTruthy ∧ GateTimed.tableOk = true := by decide
+
+/-! ### the timed hypotheses are satisfiable -/
+
+-- the prefix is detached and attached again (other handler, other validator) while validator 10 decides; a handler
+-- without validator sits on the shorter prefix: the Interest stays with the pair it found
+example : (GateTimed.run .v2 0 [.attach [[103]] (some 1) (some 10), .attach [] (some 2) none,
+    .arrive [[103], [120]] ⟨true, false, true⟩, .start 0, .detach [[103]], .attach [[103]] (some 3) (some 11),
+    .done 0 .pass]).log = [.digest 0, .validate 0 10, .handle 0 1] := by decide
+-- ... and an Interest that arrives after the swap gets the new pair
+example : (GateTimed.run .v2 0 [.attach [[103]] (some 1) (some 10), .detach [[103]], .attach [[103]] (some 3) (some 11),
+    .arrive [[103], [120]] ⟨true, false, true⟩, .start 0, .done 0 .allowBypass]).log =
+    [.digest 0, .validate 0 11, .handle 0 3] := by decide
+-- two Interests in flight on one prefix with different verdicts, answers in the opposite order
+example : (GateTimed.run .v2 0 [.attach [[103]] (some 1) (some 10), .arrive [[103], [1]] ⟨true, true, true⟩, .start 0,
+    .arrive [[103], [2]] ⟨true, true, true⟩, .start 1, .done 1 .pass, .done 0 .fail]).log =
+    [.digest 0, .validate 0 10, .digest 1, .validate 1 10, .handle 1 1] := by decide
+-- legacy: a signed Interest on a route without validator: the application-wide validator (7) is consulted; it raises
+example : (GateTimed.run .v1 7 [.attach [[103]] (some 1) none, .arrive [[103], [120]] ⟨true, true, true⟩,
+    .start 0, .detach [[103]], .done 0 .raiseOther]).log = [.digest 0, .validate 0 7, .died 0 .scripted] := by decide
+-- current front-end: the validator-less handler on the shorter prefix takes over after the detach - for LATER Interests
+example : (GateTimed.run .v2 0 [.attach [[103]] (some 1) (some 10), .attach [] (some 2) none, .detach [[103]],
+    .arrive [[103], [120]] ⟨true, false, true⟩, .start 0]).log = [.digest 0] := by decide
+example : toksIn [] [GateTimed.Ev.start 0, .detach [[103]], .done 0 .pass, .done 0 .fail] = [.start, .done .pass, .done .fail] ∧
+    answer [.start, .done .pass, .done .fail] = some .pass := by decide
 
 end Ndn.C05
